@@ -1398,9 +1398,9 @@ def _db_case():
 
 
 def parts(ctx):
-    out = [HypPart("history", _case(), run_history, {"quick": 4000, "thorough": 300000}, stateful_steps=_MAX_STEPS)]
+    out = [HypPart("history", _case(), run_history, {"quick": 3000, "thorough": 300000}, stateful_steps=_MAX_STEPS)]
     if _db_catalog():
-        out.append(HypPart("db_history", _db_case, run_db_history, {"quick": 240, "thorough": 16000}, stateful_steps=_MAX_STEPS))
+        out.append(HypPart("db_history", _db_case, run_db_history, {"quick": 200, "thorough": 16000}, stateful_steps=_MAX_STEPS))
     return out
 
 
